@@ -819,8 +819,7 @@ func c13Copy(c *Ctx, ix *PkgIndex, xc xformCopy) []string {
 	}
 	isErrArm := func(cnd ast.Expr, pol int) bool {
 		nn, ok := nilCmp(info, cnd, pol, func(x ast.Expr) bool {
-			v, isV := objOf(info, x).(*types.Var)
-			return isV && strings.Contains(strings.ToLower(v.Name()), "err")
+			return isErrVar(info, x)
 		})
 		return ok && nn
 	}
@@ -849,11 +848,13 @@ func c13Copy(c *Ctx, ix *PkgIndex, xc xformCopy) []string {
 				var hasRes, hasScope bool
 				for _, el := range cl.Elts {
 					if kv, ok := el.(*ast.KeyValueExpr); ok {
-						v := exprStr(kv.Value)
-						if strings.Contains(v, "Equivalent()") || v == "rKey" {
+						// locals are expanded to their (single) definitions: the key parts are recognised by what they are, not by the
+						// names of the variables that carry them
+						v := expandExpr(info, fn, kv.Value, 0)
+						if strings.Contains(v, "Equivalent()") {
 							hasRes = true
 						}
-						if strings.Contains(v, "InstrumentationScope()") || v == "scope" {
+						if strings.Contains(v, "InstrumentationScope()") {
 							hasScope = true
 						}
 					}
